@@ -39,13 +39,13 @@ Section WithMD5.
 End WithMD5.
 
 (* Pl_AES_PDF::initializeVector *)
-Inductive iv_mode := IvZero | IvSpecified (iv : list N) | IvStatic | IvRandom.
-Definition initial_vector (m : iv_mode) (e : env) (offset : nat) : list N :=
+Inductive env_iv_mode := EIvZero | EIvSpecified (iv : list N) | EIvStatic | EIvRandom.
+Definition initial_vector (m : env_iv_mode) (e : env) (offset : nat) : list N :=
   match m with
-  | IvZero => repeat 0 16
-  | IvSpecified iv => iv
-  | IvStatic => map (fun i => (14 * (1 + N.of_nat i)) mod 256) (seq 0 16)
-  | IvRandom => map (fun i => e_rand e (offset + i)) (seq 0 16)
+  | EIvZero => repeat 0 16
+  | EIvSpecified iv => iv
+  | EIvStatic => map (fun i => (14 * (1 + N.of_nat i)) mod 256) (seq 0 16)
+  | EIvRandom => map (fun i => e_rand e (offset + i)) (seq 0 16)
   end.
 
 (* compute_encryption_parameters_V5 draws the file key and four 8-byte salts from the random source
@@ -53,7 +53,7 @@ Definition initial_vector (m : iv_mode) (e : env) (offset : nat) : list N :=
 Definition v5_random_material (e : env) : list N := map (e_rand e) (seq 0 64).
 
 (* what the writer draws from the environment for one run *)
-Record wcfg := { w_id : id_mode; w_iv : iv_mode; w_encrypt_v5 : bool; w_encrypted : bool }.
+Record wcfg := { w_id : id_mode; w_iv : env_iv_mode; w_encrypt_v5 : bool; w_encrypted : bool }.
 Definition env_inputs (md5 : list N -> list N) (c : wcfg) (e : env) (det_data : list N) (info : list (list N))
   : option (list N) * list N * list N :=
   (generate_id2 md5 (w_id c) (w_encrypted c) e det_data info,
@@ -61,7 +61,7 @@ Definition env_inputs (md5 : list N -> list N) (c : wcfg) (e : env) (det_data : 
    if w_encrypt_v5 c then v5_random_material e else []).
 
 Definition deterministic_cfg (c : wcfg) : Prop :=
-  (w_id c = IdStatic \/ w_id c = IdDeterministic) /\ w_iv c <> IvRandom.
+  (w_id c = IdStatic \/ w_id c = IdDeterministic) /\ w_iv c <> EIvRandom.
 
 (* ---- renaming a graph by the numbers the queue assigned (what a second run reads) ---- *)
 Definition num_or0 (g : graph) (roots : list N) (x : N) : N :=
